@@ -515,7 +515,13 @@ class FakeConn:
 
     def recv(self, n: int, *a) -> bytes:
         if not self.rx.buf and not self.rx.closed:
+            t0 = self.s.clock
             self.s.yield_point('recv', self, lambda: bool(self.rx.buf) or self.rx.closed)
+            tmo = getattr(self, 'timeout', None)
+            if tmo is not None and self.s.clock - t0 > tmo:
+                # a time-out left on the socket: nothing arrived for that long
+                # (virtual time: the server's sleeps and the seats' thinking time)
+                raise TimeoutError('timed out')
         if self.rx.buf:
             out = bytes(self.rx.buf[:n])
             del self.rx.buf[:n]
@@ -558,8 +564,8 @@ class FakeConn:
             raise OSError(107, 'Transport endpoint is not connected')
         self.tx.closed = True
 
-    def settimeout(self, *a) -> None:
-        pass
+    def settimeout(self, t=None, *a) -> None:
+        self.timeout = t
 
     def setsockopt(self, *a) -> None:
         pass
@@ -632,6 +638,7 @@ class FakeSocket:
     # client side
     def connect(self, addr) -> None:
         self.conn = self.net.connect(addr[1] if isinstance(addr, tuple) else 0)
+        self.conn.timeout = getattr(self, 'timeout', None)
 
     def recv(self, n, *a):
         return self.conn.recv(n)
@@ -647,8 +654,10 @@ class FakeSocket:
     def setsockopt(self, *a) -> None:
         pass
 
-    def settimeout(self, *a) -> None:
-        pass
+    def settimeout(self, t=None, *a) -> None:
+        self.timeout = t
+        if self.conn is not None:
+            self.conn.timeout = t
 
 
 class FakeNet:
